@@ -30,7 +30,7 @@ def real_plans(tier):
 
 def run(tier):
     return snapcheck.run_snap_property(
-        PROP, tier, "SnapTrace_C07.cfg", plans(tier), real_plans=real_plans(tier), real_cfg="RealTrace_C07.cfg", second_process=True, require_repro=False,
+        PROP, tier, "SnapTrace_C07.cfg", plans(tier), codesnap=(tier == "thorough"), real_plans=real_plans(tier), real_cfg="RealTrace_C07.cfg", second_process=True, require_repro=False,
         rule="every input is snapped twice in one process and once more in a separate process (Go randomises map iteration per range "
              "and per process), with the reverse flag toggled, and (valid polygons) with the shell / a random subset of rings reversed; "
              "TLC decides which records of a group have equal inputs and demands identical (resp. ring-wise reversed) results")
